@@ -9,6 +9,7 @@
    [k |-> "param", s |-> i]   the Parameter  S_i.param.v
    [k |-> "paramw", s |-> i]  the Parameter  S_i.param.w  (a second parameter of the same source)
    [k |-> "bind1", s |-> i]   param.bind(lambda v: v + 1, S_i.param.v)
+   [k |-> "meth", s |-> i]    the method S_i.plus_one, decorated with param.depends('v')
    [k |-> "bind2"]            param.bind(lambda a, b: a + b, S_1.param.v, S_2.param.v)
    [k |-> "rx", s |-> i]      S_i.param.v.rx() + 1
    [k |-> "nested", s |-> i]  the list [S_i.param.v, 7]      (for r only)
@@ -36,7 +37,7 @@ Scalars == {"p", "q"}
 PNames == {"p", "q", "r"}
 NoRef == [k |-> "none"]
 RefsFor(n) == IF n = "r" THEN {[k |-> "nested", s |-> i] : i \in Sources} \cap {x \in {[k |-> "nested", s |-> i] : i \in Sources} : "nested" \in Kinds}
-              ELSE {[k |-> kk, s |-> i] : kk \in Kinds \cap {"param", "paramw", "bind1", "rx"}, i \in Sources}
+              ELSE {[k |-> kk, s |-> i] : kk \in Kinds \cap {"param", "paramw", "bind1", "meth", "rx"}, i \in Sources}
                    \cup (IF "bind2" \in Kinds THEN {[k |-> "bind2"]} ELSE {})
 
 VARIABLES src, srcw, link, val, ctx, nops, hist
@@ -46,7 +47,7 @@ Deps(ref) == CASE ref.k = "none" -> {} [] ref.k = "bind2" -> Sources [] OTHER ->
 Resolve(ref, s) ==
   CASE ref.k = "param" -> s[ref.s]
     [] ref.k = "paramw" -> s[ref.s + 10]
-    [] ref.k \in {"bind1", "rx"} -> s[ref.s] + 1
+    [] ref.k \in {"bind1", "meth", "rx"} -> s[ref.s] + 1
     [] ref.k = "bind2" -> s[1] + s[2]
     [] ref.k = "nested" -> s[ref.s] + 100          \* encodes the list [v, 7]
 Valid(n, v) == IF n = "r" THEN TRUE ELSE v \in 0..5
